@@ -1,6 +1,7 @@
 //! qh: correspondence / oracle harness driving the real qmc crate.
 mod c08;
 mod c16;
+mod c17;
 mod coqfmt;
 mod model;
 mod ising;
@@ -85,6 +86,7 @@ fn main() {
         "c08" => c08::run(&args),
         "c08debug" => c08::debug(&args),
         "steps" => steps::run(&args),
+        "c17" => c17::run(&args),
         other => {
             eprintln!("unknown command {}", other);
             std::process::exit(2);
